@@ -303,6 +303,8 @@ func ruleC15(w *World, r *Report) {
 
 	// ---------- R15.3 release-on-error
 	ruleC15TunnelRelease(w, r, P)
+	ruleLoopErrorExamined(w, r, P, "R15.6", "pfcpiface.(*UP4).sendCreate", []string{"resetCounter", "allocateCounterID"})
+	ruleUpdateKeepsCells(w, r, P, "R15.7")
 	{
 		f := up("addInternalApplicationIDAndGetP4rtEntry")
 		allInstrs(f, func(i ssa.Instruction) {
